@@ -16,7 +16,7 @@ MAXA = (1 << 24) + 1024
 META = {
     "bounds": {
         "quick": "single block: address in [0, 2^24+1024], length in [0, 4*65535+2] (up to 5-6 records), copier flag symbolic; sequences of 2 blocks with lengths <= 65535+2",
-        "thorough": "single block: length in [0, 8*65535+2]; sequences of 2 and 3 blocks with lengths <= 2*65535+2",
+        "thorough": "single block: length in [0, 6*65535+2]; sequences of 2 and 3 blocks with lengths <= 2*65535+2",
     },
     "outside": ["block contents (unconstrained blob: the writer never inspects them)", "more than 3 blocks per file", "lengths above the stated bound", "run-length records (the writer never produces them)"],
     "oracle": "oracles/ips.py: independent IPS reader + tiling conditions written from the property text",
@@ -24,12 +24,12 @@ META = {
     "assumptions": [],
 }
 
-OPTS = {"quick": {"deadline_s": 400, "max_ticks": 400}, "thorough": {"deadline_s": 1500, "max_ticks": 800}}
+OPTS = {"quick": {"deadline_s": 400, "max_ticks": 400}, "thorough": {"deadline_s": 2400, "max_ticks": 800, "solver_timeout_ms": 180000}}
 
 
 def jobs(tier, seed):
     out = []
-    single = 4 * 65535 + 2 if tier == "quick" else 8 * 65535 + 2
+    single = 4 * 65535 + 2 if tier == "quick" else 6 * 65535 + 2
     for copier in (0, 1):
         out.append({"id": f"single/copier{copier}", "n": 1, "maxlen": single, "copier": copier})
     seqmax = 65535 + 2 if tier == "quick" else 2 * 65535 + 2
